@@ -45,7 +45,8 @@ template <> struct Canon<std::string> {
     static std::string gen(Rng &r, int special) {
         switch (special % 6) { case 0: return ""; case 1: return std::string("a\0b", 3); case 2: return "\xc3\xa4\xe2\x82\xac utf8"; case 3: return "line\nbreak\ttab \"quoted\""; default: { std::string s; for (int i = 0, n = (int)r.below(12); i < n; ++i) s.push_back((char)r.below(256)); return s; } }
     }
-    static std::string gen_text(Rng &r, int special) { if (special % 5 == 0) return ""; std::string s; for (int i = 0, n = 1 + (int)r.below(9); i < n; ++i) s.push_back((char)('a' + r.below(26))); if (special % 5 == 1) s += " with blanks"; return s; }
+    // the text format stores strings as "<size>:<bytes>", so arbitrary bytes (NUL, blanks, line breaks, ':') are representable
+    static std::string gen_text(Rng &r, int special) { if (special % 3 == 2) return gen(r, special / 3); if (special % 5 == 0) return ""; std::string s; for (int i = 0, n = 1 + (int)r.below(9); i < n; ++i) s.push_back((char)('a' + r.below(26))); if (special % 5 == 1) s += " with blanks"; return s; }
 };
 template <class H> struct Canon<H, std::enable_if_t<is_handle_v<H>>> {
     static std::string enc(const H &v) { int32_t i = v.idx(); return Canon<int32_t>::enc(i); }
